@@ -547,6 +547,9 @@ def _gc_cache(keep_hash):
     others = [e for e in ents if not e.startswith(keep_hash)]
     others.sort(key=lambda e: os.path.getmtime(os.path.join(base, e)))
     import shutil
+    now = time.time()
     while len(others) > 8:
         e = others.pop(0)
+        if now - os.path.getmtime(os.path.join(base, e)) < 1800:
+            continue    # possibly in use by a concurrently running check on another tree
         shutil.rmtree(os.path.join(base, e), ignore_errors=True)
